@@ -18,6 +18,27 @@ input the generator started from; the implementation's output must equal it.  Ma
 
 Observable: the labelled graph — node keys, resid, resname (gen_seq: also seqid and labels), the edge set
 with edge attributes, `max_resid`.  Node/adjacency order, exception types and log lines are not compared.
+
+Round 5 (extension):
+  * translator anchors `harness/tables/seq.py` -> `Generated/SeqTables.lean` (terminal suffixes, .ig terminators /
+    comment sign, fasta marker, alphabet keywords, `MetaMolecule.parsers`, circular edge label, gen_seq separators,
+    `seqid`, terminal degree); theorems `C12_anchor_*`, `C12_letters_vs_special`, `C12_dispatch` depend on them;
+    the driver's `file` op dispatches through the generated suffix table (`Seq.fromSequenceFileAny`);
+  * EXHAUSTIVE streams in the quick tier (tally `exhaustive=`): every one-letter code x position class (single /
+    first / middle / last) x format (.fasta, .ig linear, .ig circular); every other ASCII letter and digit refused;
+    every line breaking of lengths 0..4 x terminator x terminator placement x final newline x alphabet; every
+    recognised file suffix in every capitalisation class + near misses (text and node-link content);
+    `MetaMolecule.parsers` itself against `Seq.parserFor`; every keyword subset x arrangement through
+    `_identify_residues`; every flag combination x every capital letter through `_parse_plain`; the
+    (levels x branching) grid and a list of malformed definitions through `MacroString`;
+  * DIRECT streams (the real private functions on generated inputs, model `Model/SeqExt.lean`):
+    `gen_seq.MacroString(text)` + `.gen_graph()` (text rendered by the Lean specification side `Seq.renderMacro`,
+    compared with Python's own formatting; oracle = round trip + tree shape), `gen_seq._add_edges` (arbitrary
+    labelled graphs: interleaved blocks, nodes without seqid, existing edges, self loops; indices hit the block
+    sizes exactly; oracle = accepted iff in range, exactly those edges added, nodes untouched),
+    `gen_seq._apply_termini_modifications` + `_find_terminal_nodes`, `gen_seq._tag_nodes`,
+    `simple_seq_parsers._identify_residues`, `_parse_plain`; `gen_seq(from_file=…)` with the `tag:name` strings
+    handed to the model unparsed (`Seq.genSeqCli`), malformed / unknown block names refused.
 """
 import hashlib
 import importlib
@@ -108,17 +129,37 @@ def impl_seq(items):
     return dict(graph=canon_meta(meta))
 
 
+_WORKDIR = []
+
+
+def workdir():
+    """ONE scratch directory per run (creating and removing a directory per case dominated the wall time on a busy
+    machine); every case overwrites / removes its own files"""
+    if not _WORKDIR:
+        _WORKDIR.append(tempfile.TemporaryDirectory(prefix="verif_c12_"))
+    return pathlib.Path(_WORKDIR[0].name)
+
+
+def fresh(path):
+    if path.exists() or path.is_symlink():
+        path.unlink()
+    return path
+
+
 def impl_file(ext, text):
     from polyply.src.meta_molecule import MetaMolecule
-    with tempfile.TemporaryDirectory() as tmp:
-        path = pathlib.Path(tmp) / ("s." + ext if ext is not None else "s")
+    path = fresh(workdir() / ("s." + ext if ext is not None else "s"))
+    try:
         with open(path, "w") as handle:
             handle.write(text)
         meta = MetaMolecule.from_sequence_file(force_field(), path, "mol")
+    finally:
+        if path.exists():
+            path.unlink()
     return dict(graph=canon_meta(meta))
 
 
-def impl_json(nodes, edges):
+def impl_json(nodes, edges, ext="json"):
     """write a node-link document with the installed networkx, read it with the real reader"""
     import networkx as nx
     from networkx.readwrite import json_graph
@@ -134,11 +175,14 @@ def impl_json(nodes, edges):
         graph.add_node(key, **attrs)
     for u, v, attrs in edges:
         graph.add_edge(u, v, **{k: val for k, val in attrs})
-    with tempfile.TemporaryDirectory() as tmp:
-        path = pathlib.Path(tmp) / "g.json"
+    path = fresh(workdir() / ("g." + ext))
+    try:
         with open(path, "w") as handle:
             json.dump(json_graph.node_link_data(graph), handle)
         meta = MetaMolecule.from_sequence_file(force_field(), path, "mol")
+    finally:
+        if path.exists():
+            path.unlink()
     labelled = canon_labelled(((k, dict(meta.nodes[k])) for k in meta.nodes), meta.edges(data=True))
     return dict(graph=canon_meta(meta), labelled=labelled)
 
@@ -147,13 +191,14 @@ def impl_genseq(args, itp):
     """the real gen_seq writing a real file; then the real reader of gen_params on that file"""
     module = importlib.import_module("polyply.src.gen_seq")
     from polyply.src.meta_molecule import MetaMolecule
-    with tempfile.TemporaryDirectory() as tmp:
+    tmp = workdir()
+    out = fresh(tmp / "out.json")
+    ipath = fresh(tmp / "blocks.itp")
+    try:
         inpath = []
         if itp is not None:
-            ipath = pathlib.Path(tmp) / "blocks.itp"
             ipath.write_text(itp)
             inpath = [ipath]
-        out = pathlib.Path(tmp) / "out.json"
         module.gen_seq("mol", out, args["seq"], inpath=inpath, macro_strings=list(args["macro_strings"]),
                        from_file=list(args["from_file"]) if args["from_file"] else None,
                        connects=list(args["connects"]), modifications=list(args["modifications"]),
@@ -167,6 +212,10 @@ def impl_genseq(args, itp):
                         labelled=canon_labelled(((k, dict(meta.nodes[k])) for k in meta.nodes), meta.edges(data=True)))
         except Exception as err:  # pylint: disable=broad-except
             read = dict(ok=False, err=type(err).__name__ + ": " + str(err)[:200])
+    finally:
+        for path in (out, ipath):
+            if path.exists():
+                path.unlink()
     return dict(written=written, read=read)
 
 
@@ -177,7 +226,7 @@ def run_impl(inp):
         elif inp["kind"] == "file":
             res = impl_file(inp["ext"], inp["text"])
         elif inp["kind"] == "json":
-            res = impl_json(inp["nodes"], inp["edges"])
+            res = impl_json(inp["nodes"], inp["edges"], inp.get("ext", "json"))
         elif inp["kind"] == "genseq":
             res = impl_genseq(inp["args"], inp.get("itp"))
         else:
@@ -196,8 +245,14 @@ def model_request(inp):
     if inp["kind"] == "file":
         return dict(op="file", ext=inp["ext"] or "", text=inp["text"])
     if inp["kind"] == "json":
+        if "ext" in inp:
+            return dict(op="file_doc", ext=inp["ext"], nodes=inp["nodes"], edges=inp["edges"])
         return dict(op="json", nodes=inp["nodes"], edges=inp["edges"])
     args = inp["args"]
+    if "lib" in inp:
+        # the -from_file strings go to the model unparsed (Seq.genSeqCli)
+        return dict(op="genseq_cli", lib=inp["lib"], from_file=args["from_file"], macro_strings=args["macro_strings"],
+                    seq=args["seq"], connects=args["connects"], modifications=args["modifications"], tags=args["tags"])
     return dict(op="genseq", from_file=inp.get("blocks", []), macro_strings=args["macro_strings"], seq=args["seq"],
                 connects=args["connects"], modifications=args["modifications"], tags=args["tags"])
 
@@ -603,7 +658,7 @@ def tree_requests(ctx):
 # ------------------------------------------------------------------------------------------------ judging
 
 def input_key(inp):
-    blob = json.dumps({k: inp.get(k) for k in ("kind", "items", "ext", "text", "nodes", "edges", "args", "itp")},
+    blob = json.dumps({k: inp.get(k) for k in ("kind", "items", "ext", "text", "nodes", "edges", "args", "itp", "lib")},
                       sort_keys=True, default=str)
     return hashlib.sha1(blob.encode()).hexdigest()[:16]
 
@@ -618,6 +673,9 @@ def judge(ctx, inp, impl, model, spec):
     stream = kind if kind != "file" else "file-" + str(inp.get("fmt", "x")).split("-")[0]
     # ---- correspondence: model of the code vs the code
     if kind in ("seq", "file"):
+        impl_obs = dict(ok=impl["ok"], graph=impl.get("graph"))
+        model_obs = dict(ok=model["ok"], graph=canon_rgraph(model["graph"]) if model["ok"] else None)
+    elif kind == "json" and "ext" in inp:
         impl_obs = dict(ok=impl["ok"], graph=impl.get("graph"))
         model_obs = dict(ok=model["ok"], graph=canon_rgraph(model["graph"]) if model["ok"] else None)
     elif kind == "json":
@@ -676,6 +734,8 @@ def judge(ctx, inp, impl, model, spec):
         hist["alphabet"] = inp["alpha"]
     if inp.get("fmt", "").endswith("circular"):
         hist["circular"] = True
+    if inp.get("exhaustive"):
+        hist["exhaustive"] = inp["exhaustive"]
     if inp.get("shape"):
         for k, v in inp["shape"].items():
             hist["genseq_" + k] = (v if isinstance(v, bool) else min(v, 3))
@@ -743,6 +803,538 @@ def run_trees(ctx):
                  n=("0" if real["n"] == 0 else "1" if real["n"] == 1 else "2" if real["n"] == 2 else "3-12" if real["n"] <= 12 else ">12"))
 
 
+# ------------------------------------------------------------------------------------------------ round 5: exhaustive
+# enumeration of the small finite domains (quick tier; tallied as `exhaustive=<what>`)
+
+FILLER = {"A": "C"}     # a neighbour letter that is in all three alphabets and differs from the letter under test
+
+
+def fixed_text(fmt, alpha, lines, ter="", ter_own_line=False, final=True):
+    """a deterministic file: header/comment + title, the sequence lines, the terminator"""
+    if fmt == "fasta":
+        out = [">seq " + KEYWORD[alpha]] + list(lines)
+    else:
+        body = list(lines)
+        if ter_own_line or not body:
+            body.append(ter)
+        else:
+            body[-1] += ter
+        out = ["; " + KEYWORD[alpha] + " test", "title"] + body
+    return "\n".join(out) + ("\n" if final else "")
+
+
+def exhaustive_case(fmt, alpha, letters, lines, circular, tag, ter_own_line=False, final=True, expect="ok"):
+    text = fixed_text(fmt, alpha, lines, ("2" if circular else "1") if fmt == "ig" else "", ter_own_line, final)
+    if expect == "ok" and not letters and alpha != "aa":
+        expect = "reject"
+    spec = dict(op="spec_seqfile", alphabet=alpha, circular=circular, letters=letters) if expect == "ok" else None
+    case = dict(kind="file", ext=fmt, text=text, fmt=fmt + ("-circular" if circular else ""), alpha=alpha, expect=expect,
+                spec=spec, size=len(letters), exhaustive=tag)
+    if expect == "reject":
+        case["malformed"] = "unknown-letter" if letters else "empty-nucleic"
+    return case
+
+
+def compositions(n):
+    """all ways to break a sequence of n letters into non-empty lines"""
+    if n == 0:
+        return [[]]
+    out = []
+    for mask in range(2 ** (n - 1)):
+        parts, cur = [], 1
+        for i in range(n - 1):
+            if mask >> i & 1:
+                parts.append(cur)
+                cur = 1
+            else:
+                cur += 1
+        parts.append(cur)
+        out.append(parts)
+    return out
+
+
+def gen_exhaustive_file_cases(ctx):
+    import string
+    cases = []
+    shapes = [("fasta", False), ("ig", False), ("ig", True)]
+    # (1) every one-letter code x position class x format
+    for alpha in ("dna", "rna", "aa"):
+        for letter in LETTERS[alpha]:
+            fill = FILLER.get(letter, "A")
+            for cls, letters in (("single", letter), ("first", letter + fill + fill), ("middle", fill + letter + fill),
+                                 ("last", fill + fill + letter)):
+                for fmt, circ in shapes:
+                    cases.append(exhaustive_case(fmt, alpha, letters, [letters], circ, "letter-x-position-x-format"))
+    # (2) every other ASCII letter and digit is refused (the terminators 1/2 are compared with the model only)
+    for alpha in ("dna", "rna", "aa"):
+        for char in string.ascii_letters + string.digits:
+            if char in LETTERS[alpha]:
+                continue
+            letters = "A" + char + "C"
+            for fmt, circ in (("fasta", False), ("ig", False)):
+                case = exhaustive_case(fmt, alpha, letters, [letters], circ, "non-alphabet-char", expect="reject")
+                if char in "12" and fmt == "ig":
+                    case.update(expect=None, lenient=True)
+                    case.pop("malformed")
+                cases.append(case)
+    # (3) all alphabets x terminator x terminator placement x every line breaking, lengths 0..4 (quick) / ..6
+    top = ctx.budget(4, 6)
+    for alpha in ("dna", "rna", "aa"):
+        pool = LETTERS[alpha]
+        for n in range(0, top + 1):
+            letters = "".join(pool[(3 * i + n) % len(pool)] for i in range(n))
+            for parts in compositions(n):
+                lines, pos = [], 0
+                for k in parts:
+                    lines.append(letters[pos:pos + k])
+                    pos += k
+                for final in (True, False):
+                    cases.append(exhaustive_case("fasta", alpha, letters, lines, False, "line-breaking", final=final))
+                    for circ in (False, True):
+                        if circ and n == 0:
+                            continue      # empty circular sequence: node -1, outside the model
+                        for own in (False, True):
+                            cases.append(exhaustive_case("ig", alpha, letters, lines, circ, "line-breaking",
+                                                         ter_own_line=own, final=final))
+    return cases
+
+
+SUFFIXES = ["txt", "fasta", "ig", "json"]
+NEAR_MISS = ["", "tx", "txtt", "text", "t xt", "fa", "fas", "fast", "fastaa", "i", "igg", "gi", "jso", "jsonl", "json5",
+             "jsn", "seq", "dat", "itp", "gro", "py", "txt~", "ig1"]
+
+
+def gen_dispatch_cases():
+    """every recognised suffix in every capitalisation class, and near misses, through from_sequence_file"""
+    cases = []
+    content = {"txt": "PEO PEO\nOH\n", "fasta": ">DNA\nACG\n", "ig": "; DNA\ntitle\nACG1\n"}
+    specs = {"txt": dict(op="spec_linear", names=["PEO", "PEO", "OH"]),
+             "fasta": dict(op="spec_seqfile", alphabet="dna", circular=False, letters="ACG"),
+             "ig": dict(op="spec_seqfile", alphabet="dna", circular=False, letters="ACG")}
+    nodes = [[1, "B", None, None, []], [0, "A", None, None, []]]
+    edges = [[0, 1, []]]
+    for suffix in SUFFIXES:
+        variants = sorted({suffix, suffix.upper(), suffix.capitalize(), suffix[0] + suffix[1:].upper(),
+                           "".join(c.upper() if i % 2 else c for i, c in enumerate(suffix))})
+        for ext in variants:
+            if suffix == "json":
+                cases.append(dict(kind="json", ext=ext, nodes=nodes, edges=edges, expect="ok", fmt="json", size=2,
+                                  spec=dict(op="spec_readback", nodes=sorted(nodes), edges=edges), exhaustive="suffix-dispatch"))
+            else:
+                cases.append(dict(kind="file", ext=ext, text=content[suffix], fmt=suffix, expect="ok", spec=specs[suffix],
+                                  size=3, exhaustive="suffix-dispatch"))
+    for ext in NEAR_MISS:
+        cases.append(dict(kind="file", ext=ext, text=content["txt"], fmt="txt", expect="reject", spec=None, size=0,
+                          malformed="unknown-extension", exhaustive="suffix-dispatch"))
+        cases.append(dict(kind="json", ext=ext, nodes=nodes, edges=edges, expect="reject", fmt="json", size=0, spec=None,
+                          malformed="unknown-extension", exhaustive="suffix-dispatch"))
+    # a node-link document under a text suffix / text under .json must not be read as the other kind
+    cases.append(dict(kind="file", ext="json", text=content["txt"], fmt="txt", expect="reject", spec=None, size=0,
+                      malformed="text-under-json", exhaustive="suffix-dispatch"))
+    return cases
+
+
+def run_dispatch_table(ctx):
+    """`MetaMolecule.parsers` itself against `Seq.parserFor` (the generated table), every suffix above"""
+    from polyply.src.meta_molecule import MetaMolecule
+    from polyply.src import simple_seq_parsers
+    exts = sorted({e for s in SUFFIXES for e in (s, s.upper(), s.capitalize())} | set(NEAR_MISS))
+    answers = ctx.driver.ask([dict(op="dispatch", ext=e) for e in exts])
+    for ext, ans in zip(exts, answers):
+        func = MetaMolecule.parsers.get(ext.casefold())
+        names = sorted(n for n in dir(simple_seq_parsers) if n.startswith("parse_") and getattr(simple_seq_parsers, n) is func) \
+            if func is not None else []
+        ctx.correspond("suffix-table", names[0] if names else None, ans.get("parser"), dict(kind="dispatch", ext=ext))
+        want = "parse_" + ext.casefold() if ext.casefold() in SUFFIXES else None
+        if (names[0] if names else None) != want:
+            ctx.oracle_fail("suffix-dispatch-wrong-parser", "suffix %r is served by %r, the property names %r"
+                            % (ext, names[0] if names else None, want), dict(kind="dispatch", ext=ext))
+        ctx.case(None, kind="suffix-table", exhaustive="suffix-dispatch")
+
+
+# ------------------------------------------------------------------------------------------------ round 5: the parts of
+# gen_seq / simple_seq_parsers driven DIRECTLY (not only through gen_seq(...) / from_sequence_file)
+
+def rand_graph(rng, maxn=8):
+    """an arbitrary labelled graph: distinct non-contiguous keys, blocks interleaved, nodes without seqid, edges"""
+    n = rng.randint(0 if rng.random() < 0.05 else 1, maxn)
+    keys = rng.sample(range(0, 25), n)
+    seqids = [rng.choice([None, 0, 0, 1, 1, 2, 5]) for _ in keys]
+    nodes = [[k, rng.choice(NAMES[:8]), None, sid, []] for k, sid in zip(keys, seqids)]
+    edges, seen = [], set()
+    for _ in range(rng.randint(0, n + 1)):
+        if n == 0:
+            break
+        u, v = rng.choice(keys), rng.choice(keys)
+        if u == v and rng.random() < 0.7:
+            continue
+        if (min(u, v), max(u, v)) in seen:
+            continue
+        seen.add((min(u, v), max(u, v)))
+        edges.append([u, v, []])
+    return nodes, edges
+
+
+def nx_of(nodes, edges):
+    import networkx as nx
+    graph = nx.Graph()
+    for key, resname, resid, seqid, tags in nodes:
+        attrs = dict(resname=resname)
+        if resid is not None:
+            attrs["resid"] = resid
+        if seqid is not None:
+            attrs["seqid"] = seqid
+        attrs.update({k: v for k, v in tags})
+        graph.add_node(key, **attrs)
+    for u, v, attrs in edges:
+        graph.add_edge(u, v, **{k: val for k, val in attrs})
+    return graph
+
+
+def canon_nx(graph):
+    return canon_labelled(((k, dict(graph.nodes[k])) for k in graph.nodes), graph.edges(data=True))
+
+
+def block_nodes(nodes, sid):
+    return [n[0] for n in nodes if n[3] == sid]
+
+
+def degree_of(edges, key):
+    return sum((u == key) + (v == key) for u, v, _ in edges)
+
+
+BAD_ITEMS = ["", "1", "1-", "-1", "1-2-3", "x-1", "1-y", "1.0-2", "1_2"]
+
+
+def gen_direct_cases(ctx, rng):
+    cases = []
+    # ---- _add_edges on arbitrary graphs: indices hit the block sizes exactly
+    for _ in range(ctx.budget(250, 2500)):
+        nodes, edges = rand_graph(rng)
+        i, j = rng.choice([0, 1, 2, 5, 7]), rng.choice([0, 1, 2, 5, 7])
+        bi, bj = block_nodes(nodes, i), block_nodes(nodes, j)
+        items, expect_edges, ok = [], [], True
+        for _ in range(rng.choice([1, 1, 2, 3])):
+            a = rng.choice([0, max(len(bi) - 1, 0), len(bi), len(bi) + 1, rng.randint(0, 3)])
+            b = rng.choice([0, max(len(bj) - 1, 0), len(bj), len(bj) + 1, rng.randint(0, 3)])
+            items.append(rng.choice(["%d-%d", "%d-%d", " %d-%d", "%d - %d", "%d -%d "]) % (a, b))
+            if a < len(bi) and b < len(bj):
+                expect_edges.append([bi[a], bj[b]])
+            else:
+                ok = False
+        malformed = None
+        if rng.random() < 0.12:
+            items.insert(rng.randint(0, len(items)), rng.choice(BAD_ITEMS))
+            ok, malformed = False, "connect-syntax"
+        cases.append(dict(kind="add_edges", nodes=nodes, edges=edges, text=",".join(items), i=i, j=j,
+                          expect="ok" if ok else "reject", expect_edges=expect_edges, malformed=malformed))
+    # ---- _apply_termini_modifications / _find_terminal_nodes on arbitrary graphs
+    for _ in range(ctx.budget(200, 2000)):
+        nodes, edges = rand_graph(rng)
+        mods, parsed, ok = [], [], True
+        for _ in range(rng.choice([0, 1, 1, 2, 3])):
+            sid, name = rng.choice([0, 1, 2, 5, 7]), rand_name(rng, ":")
+            mods.append("%d:%s" % (sid, name))
+            parsed.append((sid, name))
+        if rng.random() < 0.1:
+            mods.insert(rng.randint(0, len(mods)), rng.choice(["0", "0:A:B", "x:A", ":A", ""]))
+            ok = False
+        cases.append(dict(kind="apply_mods", nodes=nodes, edges=edges, mods=mods, parsed=parsed,
+                          expect="ok" if ok else "reject"))
+    # ---- _tag_nodes on arbitrary graphs
+    for _ in range(ctx.budget(200, 2000)):
+        nodes, edges = rand_graph(rng)
+        tags, parsed, ok, lenient = [], [], True, False
+        for _ in range(rng.choice([0, 1, 1, 2, 3])):
+            sid, attr, val = rng.choice([0, 1, 2, 5, 7]), rng.choice(LABELS), rng.choice(VALUES)
+            mix = [val + "-" + one_prob(rng)]
+            for _ in range(rng.choice([0, 0, 1])):
+                mix.insert(rng.randint(0, len(mix)), rng.choice(VALUES) + "x-" + rng.choice(["0", "0.0", "0."]))
+            tags.append("%d:%s:%s" % (sid, attr, ",".join(mix)))
+            parsed.append((sid, attr, val))
+            if not block_nodes(nodes, sid):
+                lenient = True          # a label naming no block labels every node: model only
+        if rng.random() < 0.1:
+            tags.insert(rng.randint(0, len(tags)), rng.choice(["0:chiral", "0", "0:chiral:R", "x:chiral:R-1", "0:c:R-1:Z",
+                                                              "0:c:R-1,", "0:c:R-x"]))
+            ok = False
+        cases.append(dict(kind="apply_tags", nodes=nodes, edges=edges, tags=tags, parsed=parsed,
+                          expect=None if (lenient and ok) else ("ok" if ok else "reject")))
+    return cases
+
+
+WEIGHT_ONE = ["1", "1.0", "1.", "1.00", ".5", "0.25", "2", "10"]
+WEIGHT_ZERO = ["0", "0.0", "0.", ".0", "00"]
+BAD_MACROS = ["", "Q", "Q:2", "Q:2:1", "Q:2:1:", "Q:2:1:PEO", "Q:2:1:PEO-1-2", "Q:2:1:PEO-1,", "Q:2:1:,PEO-1", "Q:x:1:PEO-1",
+              "Q:2:y:PEO-1", "Q:2:1:PEO-z", "Q::1:PEO-1", "Q:2::PEO-1", "Q:2:1:PEO-", "Q:2:1:PEO-.", "Q:2:1:PEO-1.0.0",
+              "Q:2.0:1:PEO-1", "Q:2:1.5:PEO-1", "Q:2:1:-", "Q;2;1;PEO-1", "Q:2:1:PEO=1"]
+
+
+def gen_macro_cases(ctx, rng):
+    """abstract macros -> rendered by the Lean specification side -> the REAL MacroString; plus free spellings"""
+    cases = []
+    shapes = [(lv, bf) for lv in range(0, 5) for bf in range(0, 4) if not (bf == 3 and lv == 4)]
+    for lv, bf in shapes:                      # exhaustive over the (levels, branching) grid
+        cases.append(dict(kind="macro", abstract=dict(name=rng.choice(["A", "blk", "M1"]), levels=lv, bfact=bf,
+                                                      probs=[[rand_name(rng, " :,-"), True]]), exhaustive="levels-x-branching"))
+    for _ in range(ctx.budget(120, 1500)):
+        k = rng.randint(1, 4)
+        pos = rng.randrange(k)
+        probs = [[rand_name(rng, " :,-"), i == pos] for i in range(k)]
+        if rng.random() < 0.08:
+            probs = [[p[0], False] for p in probs]      # zero total weight: gen_graph must refuse
+        lv = rng.choice([0, 1, 2, 3, 4, 12 if rng.random() < 0.1 else 2])
+        bf = rng.choice([0, 1, 1, 2, 3]) if lv <= 4 else 1
+        if bf == 3 and lv == 4:
+            lv = 3
+        case = dict(kind="macro", abstract=dict(name=rand_name(rng, " :"), levels=lv, bfact=bf, probs=probs))
+        if rng.random() < 0.4:
+            # free spelling of the same macro: other weight notations, trailing fields (ignored by the code)
+            text = "%s:%d:%d:%s" % (case["abstract"]["name"], lv, bf,
+                                    ",".join("%s-%s" % (nm, rng.choice(WEIGHT_ONE if w else WEIGHT_ZERO)) for nm, w in probs))
+            if rng.random() < 0.2:
+                text += ":" + rng.choice(["", "x", "1:2"])
+            case["text"] = text
+        cases.append(case)
+    for text in BAD_MACROS:
+        cases.append(dict(kind="macro", text=text, abstract=None, expect="reject", exhaustive="malformed-macro-strings"))
+    return cases
+
+
+def gen_identify_cases():
+    """every subset of the three keywords x arrangement; every flag combination x every capital letter"""
+    import itertools
+    import string
+    cases = []
+    keys = ["DNA", "RNA", "PROTEIN"]
+    for r in range(0, 4):
+        for subset in itertools.combinations(keys, r):
+            want = None if ("DNA" in subset and "RNA" in subset) or not subset else \
+                ["DNA" in subset, "RNA" in subset, "PROTEIN" in subset]
+            arrangements = [[" ".join(subset)], ["my " + w + " seq" for w in subset] + ["", "x"],
+                            ["pre" + "".join(subset) + "post"], list(reversed(["a " + w for w in subset])) + ["title"]]
+            for comments in arrangements:
+                cases.append(dict(kind="identify", comments=comments, want=want, exhaustive="keyword-subsets"))
+            # other capitalisation is not a keyword
+            cases.append(dict(kind="identify", comments=[" ".join(w.lower() for w in subset) or "none"], want=None,
+                              exhaustive="keyword-subsets"))
+    cases.append(dict(kind="identify", comments=[], want=None, exhaustive="keyword-subsets"))
+    for flags in itertools.product([False, True], repeat=3):
+        for char in string.ascii_uppercase:
+            cases.append(dict(kind="parse_plain", flags=list(flags), lines=[char + "\n"], exhaustive="flags-x-letter"))
+        cases.append(dict(kind="parse_plain", flags=list(flags), lines=["AC\n", " GT \n", "\n", "VLK"], exhaustive="flags-x-letter"))
+        cases.append(dict(kind="parse_plain", flags=list(flags), lines=[], exhaustive="flags-x-letter"))
+    return cases
+
+
+def impl_direct(inp):
+    module = importlib.import_module("polyply.src.gen_seq")
+    parsers = importlib.import_module("polyply.src.simple_seq_parsers")
+    kind = inp["kind"]
+    try:
+        if kind == "add_edges":
+            graph = nx_of(inp["nodes"], inp["edges"])
+            module._add_edges(graph, inp["text"], inp["i"], inp["j"])  # pylint: disable=protected-access
+            return dict(ok=True, graph=canon_nx(graph))
+        if kind == "apply_mods":
+            graph = nx_of(inp["nodes"], inp["edges"])
+            terminal = sorted(module._find_terminal_nodes(graph))  # pylint: disable=protected-access
+            module._apply_termini_modifications(graph, list(inp["mods"]))  # pylint: disable=protected-access
+            return dict(ok=True, graph=canon_nx(graph), terminal=terminal)
+        if kind == "apply_tags":
+            graph = nx_of(inp["nodes"], inp["edges"])
+            module._tag_nodes(graph, list(inp["tags"]))  # pylint: disable=protected-access
+            return dict(ok=True, graph=canon_nx(graph))
+        if kind == "macro":
+            macro = module.MacroString(inp["text"])
+            res = dict(ok=True, name=macro.name, levels=macro.levels, bfact=macro.bfact,
+                       probs=[[str(n), float(w) > 0] for n, w in zip(macro.residues, macro.weights)])
+            try:
+                graph = macro.gen_graph()
+                keys = sorted(graph.nodes)
+                res["graph"] = dict(keys=keys, names=[graph.nodes[k].get("resname") for k in keys],
+                                    edges=sorted([min(u, v), max(u, v)] for u, v in graph.edges))
+            except Exception:  # pylint: disable=broad-except
+                res["graph"] = None
+            return res
+        if kind == "identify":
+            flags = parsers._identify_residues(list(inp["comments"]))  # pylint: disable=protected-access
+            return dict(ok=True, flags=[bool(f) for f in flags])
+        if kind == "parse_plain":
+            dna, rna, aa = inp["flags"]
+            graph = parsers._parse_plain(list(inp["lines"]), DNA=dna, RNA=rna, AA=aa)  # pylint: disable=protected-access
+            return dict(ok=True, graph=canon_nx(graph))
+    except common.DriverError:
+        raise
+    except Exception as err:  # pylint: disable=broad-except
+        return dict(ok=False, err=type(err).__name__ + ": " + str(err)[:200])
+    raise common.DriverError("unknown direct case kind %r" % kind)
+
+
+def direct_request(inp):
+    kind = inp["kind"]
+    if kind == "add_edges":
+        return dict(op="add_edges", nodes=inp["nodes"], edges=inp["edges"], text=inp["text"], i=inp["i"], j=inp["j"])
+    if kind == "apply_mods":
+        return dict(op="apply_mods", nodes=inp["nodes"], edges=inp["edges"], mods=inp["mods"])
+    if kind == "apply_tags":
+        return dict(op="apply_tags", nodes=inp["nodes"], edges=inp["edges"], tags=inp["tags"])
+    if kind == "macro":
+        return dict(op="macro", text=inp["text"])
+    if kind == "identify":
+        return dict(op="identify", comments=inp["comments"])
+    return dict(op="parse_plain", flags=inp["flags"], lines=inp["lines"])
+
+
+def expected_graph(inp):
+    """the property's own statement for the direct graph operations, computed here from the parsed request"""
+    nodes = [list(n) for n in inp["nodes"]]
+    edges = [list(e) for e in inp["edges"]]
+    if inp["kind"] == "add_edges":
+        have = {(min(u, v), max(u, v)) for u, v, _ in edges}
+        for u, v in inp["expect_edges"]:
+            if (min(u, v), max(u, v)) not in have:
+                have.add((min(u, v), max(u, v)))
+                edges.append([u, v, []])
+    elif inp["kind"] == "apply_mods":
+        for node in nodes:
+            hits = [name for sid, name in inp["parsed"] if node[3] == sid and degree_of(inp["edges"], node[0]) == 1]
+            if hits:
+                node[1] = hits[-1]
+    else:
+        for node in nodes:
+            tags = {}
+            for sid, attr, val in inp["parsed"]:
+                if node[3] == sid:
+                    tags[attr] = val
+            node[4] = [[k, v] for k, v in tags.items()]
+    return canon_sgraph(dict(nodes=nodes, edges=edges))
+
+
+def run_direct(ctx, cases):
+    """render (Lean specification side) -> real code -> model; all driver requests in two batches"""
+    # batch 1: render the abstract macros
+    todo = [c for c in cases if c["kind"] == "macro" and "text" not in c]
+    answers = ctx.driver.ask([dict(op="render", what="macro", **c["abstract"]) for c in todo])
+    for case, ans in zip(todo, answers):
+        ab = case["abstract"]
+        python_text = "%s:%d:%d:%s" % (ab["name"], ab["levels"], ab["bfact"],
+                                       ",".join("%s-%s" % (nm, "1" if w else "0") for nm, w in ab["probs"]))
+        ctx.correspond("render-macro", python_text, ans["text"], dict(kind="macro", abstract=ab))
+        case["text"] = ans["text"]
+        case["rendered"] = True
+    impls = [impl_direct(c) for c in cases]
+    answers = ctx.driver.ask([direct_request(c) for c in cases])
+    for inp, impl, model in zip(cases, impls, answers):
+        if not model.get("ok") and str(model.get("err", "")).startswith("protocol"):
+            raise common.DriverError("driver protocol error: %s on %s" % (model.get("err"), short(inp)))
+        judge_direct(ctx, inp, impl, model)
+
+
+def judge_direct(ctx, inp, impl, model):
+    kind = inp["kind"]
+    replay = {k: v for k, v in inp.items() if k not in ("rendered",)}
+    hist = dict(kind=kind)
+    if inp.get("exhaustive"):
+        hist["exhaustive"] = inp["exhaustive"]
+    key = None
+    if kind in ("add_edges", "apply_mods", "apply_tags"):
+        impl_obs = dict(ok=impl["ok"], graph=impl.get("graph"))
+        model_obs = dict(ok=model["ok"], graph=canon_sgraph(model["sgraph"]) if model["ok"] else None)
+        if kind == "apply_mods":
+            impl_obs["terminal"] = impl.get("terminal")
+            model_obs["terminal"] = sorted(model["terminal"]) if model["ok"] else None
+        ctx.correspond("gen_seq." + {"add_edges": "_add_edges", "apply_mods": "_apply_termini_modifications",
+                                     "apply_tags": "_tag_nodes"}[kind], impl_obs, model_obs, replay)
+        expect = inp.get("expect")
+        if expect == "reject" and impl["ok"]:
+            ctx.oracle_fail("direct-%s-accepts-malformed" % kind, "%s accepted a request it must refuse (%s): %s"
+                            % (kind, inp.get("malformed") or "index out of range / syntax", short(replay)), replay)
+        elif expect == "ok":
+            want = expected_graph(inp)
+            if not impl["ok"]:
+                ctx.oracle_fail("direct-%s-rejects-valid" % kind, "%s refused a valid request with %s: %s"
+                                % (kind, impl["err"], short(replay)), replay)
+            elif impl["graph"] != want:
+                ctx.oracle_fail("direct-%s-wrong-graph" % kind, "%s gave %s, the request states %s (%s)"
+                                % (kind, short(impl["graph"]), short(want), short(replay)), replay)
+        hist["expect"] = str(expect)
+        if len(inp["nodes"]) >= 2:
+            key = (kind, input_key(dict(kind=kind, nodes=inp["nodes"], edges=inp["edges"],
+                                        text=inp.get("text") or inp.get("mods") or inp.get("tags"), args=[inp.get("i"), inp.get("j")])))
+    elif kind == "macro":
+        def obs(res, graph):
+            return dict(ok=res["ok"], name=res.get("name"), levels=res.get("levels"), bfact=res.get("bfact"),
+                        probs=res.get("probs"), graph=graph) if res["ok"] else dict(ok=False)
+        impl_graph = None
+        if impl["ok"] and impl["graph"] is not None:
+            impl_graph = dict(names=impl["graph"]["names"], edges=impl["graph"]["edges"],
+                              keys_ok=impl["graph"]["keys"] == list(range(len(impl["graph"]["keys"]))))
+        model_graph = None
+        if model["ok"] and model["graph"] is not None:
+            model_graph = dict(names=model["graph"]["names"], edges=sorted([min(u, v), max(u, v)] for u, v in model["graph"]["edges"]),
+                               keys_ok=True)
+        ctx.correspond("gen_seq.MacroString", obs(impl, impl_graph), obs(model, model_graph), replay)
+        ab = inp.get("abstract")
+        if ab is None:
+            if impl["ok"]:
+                ctx.oracle_fail("macro-accepts-malformed", "MacroString accepted the malformed definition %r" % inp["text"], replay)
+        else:
+            want = dict(name=ab["name"], levels=ab["levels"], bfact=ab["bfact"], probs=[list(p) for p in ab["probs"]])
+            got = {k: impl.get(k) for k in want} if impl["ok"] else "raised " + impl["err"]
+            if got != want:
+                ctx.oracle_fail("macro-roundtrip", "the macro %s written as %r is read by MacroString as %s"
+                                % (short(want), inp["text"], short(got)), replay)
+            certain = [nm for nm, w in ab["probs"] if w]
+            size = sum(ab["bfact"] ** i for i in range(ab["levels"]))
+            if impl["ok"] and len(certain) == 1 and ab["bfact"] >= 1 and ab["levels"] >= 1:
+                tree = sorted([(j - 1) // ab["bfact"], j] for j in range(1, size))
+                if impl_graph != dict(names=[certain[0]] * size, edges=tree, keys_ok=True):
+                    ctx.oracle_fail("macro-wrong-tree", "the macro %r generates %s, not %d residues %s on the tree j -> (j-1)//%d"
+                                    % (inp["text"], short(impl_graph), size, certain[0], ab["bfact"]), replay)
+            if size >= 2:
+                key = ("macro", inp["text"])
+        hist["expect"] = "reject" if ab is None else "ok"
+    elif kind == "identify":
+        ctx.correspond("_identify_residues", dict(ok=impl["ok"], flags=impl.get("flags")),
+                       dict(ok=model["ok"], flags=model.get("flags")), replay)
+        got = impl.get("flags") if impl["ok"] else None
+        if got != inp["want"]:
+            ctx.oracle_fail("identify-wrong-alphabet", "comments %r are identified as %s, stated: %s (DNA, RNA, PROTEIN)"
+                            % (inp["comments"], got, inp["want"]), replay)
+        key = ("identify", json.dumps(inp["comments"]))
+    else:
+        ctx.correspond("_parse_plain", dict(ok=impl["ok"], graph=impl.get("graph")),
+                       dict(ok=model["ok"], graph=canon_sgraph(model["sgraph"]) if model["ok"] else None), replay)
+        key = ("parse_plain", json.dumps([inp["flags"], inp["lines"]]))
+    ctx.case(key, sample=None, **hist)
+
+
+def gen_fromfile_cases(ctx, rng):
+    """gen_seq with the -from_file strings handed to the model unparsed; malformed / unknown block names"""
+    cases = []
+    wanted = ctx.budget(40, 300)
+    tries = 0
+    while len(cases) < wanted and tries < 40 * wanted:
+        tries += 1
+        case = gen_genseq_case(ctx, rng, small=rng.random() < 0.5)
+        if not case["blocks"]:
+            continue
+        case["lib"] = [["MOL" + tag, names, edges] for tag, names, edges in case["blocks"]]
+        case["fmt"] = "genseq"
+        if rng.random() < 0.5:
+            args = json.loads(json.dumps(case["args"]))
+            what = rng.choice(["from-file-syntax", "from-file-unknown-block"])
+            k = rng.randrange(len(args["from_file"]))
+            tag = args["from_file"][k].split(":")[0]
+            args["from_file"][k] = rng.choice([tag, tag + ":MOL" + tag + ":x", ":".join([tag] * 3)]) \
+                if what == "from-file-syntax" else tag + ":" + rng.choice(["NOPE", "mol" + tag, "MOL" + tag + "x", ""])
+            case = dict(kind="genseq", args=args, itp=case["itp"], blocks=case["blocks"], lib=case["lib"], expect="reject",
+                        spec=None, size=0, fmt="genseq", malformed=what)
+        cases.append(case)
+    return cases
+
+
 def corpus_cases():
     path = os.path.join(common.VERIF, "corpus", "C12")
     out = []
@@ -761,12 +1353,19 @@ def run(ctx):
         "random.choices with exactly one positive weight (modelled as the certain choice)",
         "networkx balanced_tree / disjoint_union / degree / node_link_data / node_link_graph, json.dump/load (modelled; tied by the correspondence on the real write->read composition)",
         "vermouth make_residue_graph + polyply .itp reader for -from_file blocks (parameter: residue names in order, edges by position)",
+        "vermouth.parser_utils.split_comments default comment sign (read from the installed library by the translator)",
+        "translator harness/tables/seq.py (ast patterns; cross-validated by probing the live functions)",
     ]
     ctx.extra["explanation"] = ("theorems (all lengths, by induction): C12_tables, C12_linear_shape, C12_linear, C12_linear_parsers, "
                                 "C12_linear_txt, C12_translate, C12_termini, C12_fasta, C12_circular, C12_circular_shape, C12_ig, C12_tree, "
                                 "C12_tree_zero, C12_tree_size, C12_union_offsets, C12_connect, C12_connects, C12_genseq, "
-                                "C12_json_roundtrip, C12_json_sorted; the oracle is the Lean specification (Seq.spec*) evaluated on "
-                                "the abstract input the files / command lines were rendered from")
+                                "C12_json_roundtrip, C12_json_sorted; round 5: C12_anchor_suffixes, C12_anchor_ig, C12_anchor_circle, "
+                                "C12_anchor_fasta, C12_anchor_keywords, C12_letters_vs_special, C12_anchor_genseq (all depend on the "
+                                "generated SeqTables), C12_dispatch, C12_macro_roundtrip, C12_macro_graph, C12_records_roundtrip, "
+                                "C12_connect_iff, C12_add_edges_text, C12_terminal_iff, C12_modifications_frame, C12_tag_frame; "
+                                "the oracle is the Lean specification (Seq.spec*) evaluated on "
+                                "the abstract input the files / command lines were rendered from; for the direct streams the oracle "
+                                "recomputes the stated graph from the parsed request in the harness")
     ctx.assumptions += [
         "inputs are ASCII; .txt tokens contain no whitespace; integers in command strings are plain decimal digits",
         "residue mixes and labels have exactly one positive weight (random mixes are outside the quantifier)",
@@ -780,8 +1379,17 @@ def run(ctx):
     inputs += gen_file_cases(ctx, rng)
     inputs += gen_json_cases(ctx, rng)
     inputs += gen_genseq_cases(ctx, rng)
+    # round 5: exhaustive enumeration of the small finite domains + the -from_file strings
+    exhaustive = gen_exhaustive_file_cases(ctx) + gen_dispatch_cases()
+    ctx.tally(exhaustive_file_cases=len(exhaustive))
+    inputs += exhaustive
+    inputs += gen_fromfile_cases(ctx, rng)
     run_trees(ctx)
+    run_dispatch_table(ctx)
     run_cases(ctx, inputs)
+    # round 5: MacroString / _add_edges / _apply_termini_modifications / _tag_nodes / _identify_residues /
+    # _parse_plain driven directly
+    run_direct(ctx, gen_macro_cases(ctx, rng) + gen_identify_cases() + gen_direct_cases(ctx, rng))
     # report the smallest failing input of every shape first
     ctx.failures.sort(key=lambda f: len(json.dumps(f["replay"], default=str)))
 
@@ -798,5 +1406,13 @@ def replay(ctx, data):
     else:
         inputs = [inp]
     run_cases(ctx, [i for i in inputs if i.get("kind") in ("seq", "file", "json", "genseq")])
+    direct = [i for i in inputs if i.get("kind") in ("add_edges", "apply_mods", "apply_tags", "macro", "identify", "parse_plain")]
+    for i in direct:
+        if i.get("kind") == "macro" and i.get("rendered"):
+            i.pop("text", None)
+    if direct:
+        run_direct(ctx, direct)
+    if any(i.get("kind") == "dispatch" for i in inputs):
+        run_dispatch_table(ctx)
     for b in ctx.broken:
         print("REPLAY-DISAGREES", b["name"], b["detail"][:400])
